@@ -8,7 +8,7 @@ pub mod watch;
 
 #[cfg(feature = "cb-std")]
 pub mod big_engine;
-#[cfg(feature = "cb-std")]
+#[cfg(all(feature = "cb-std", target_pointer_width = "64"))]
 pub mod huge_engine;
 #[cfg(feature = "cb-std")]
 pub mod case;
